@@ -369,3 +369,21 @@ def np_ones(eng, args, kwargs, st, node):
     if not z3.is_int_value(n):
         raise OutOfSubset('np.ones(symbolic)')
     yield mkvec([mk_real(1)] * n.as_long()), st
+
+
+@external('numpy.linspace')
+def np_linspace(eng, args, kwargs, st, node):
+    """A7: linspace(a, b, n) has n points, starts at a, ends at b (n >= 2), is monotone and stays in [min(a,b), max(a,b)];
+    interior points are x_i = a + i*(b-a)/(n-1)"""
+    a, b = real_of(eng, args[0], st, node), real_of(eng, args[1], st, node)
+    n = eng.num(args[2], st, node)[0] if len(args) > 2 else z3.IntVal(50)
+    eng.safety(st, n >= 0, 'linspace-count', node)
+    t = Ty('list', [REAL])
+    r = new_list(st, t, name='linspace')
+    c = st.store[r.id]
+    st.assume(c.n == n)
+    st.assume(q_index(c.n, lambda i: z3.Select(c.arr, i) * z3.ToReal(n - 1) == a * z3.ToReal(n - 1) + z3.ToReal(i) * (b - a), name='ls'))
+    st.assume(z3.Implies(n == 1, z3.Select(c.arr, 0) == a))
+    lo, hi = z3.If(a <= b, a, b), z3.If(a <= b, b, a)
+    st.assume(q_index(c.n, lambda i: z3.And(lo <= z3.Select(c.arr, i), z3.Select(c.arr, i) <= hi), name='lb'))
+    yield r, st
